@@ -671,22 +671,22 @@ pub fn drive(progs: &[Prog]) {
                         r[*s] = 1;
                     }
                 }
+                if sweep {
+                    // one more row per distinct event site of the reference's trace for THIS row (failures included): that event panics
+                    let mut b: Vec<i64> = r.clone();
+                    if b.len() <= PANIC_SLOT {
+                        b.resize(PANIC_SLOT + 1, 0);
+                    }
+                    b[PANIC_SLOT] = 0;
+                    set_inp(&b);
+                    let (_, rl0, _) = run1(p.r);
+                    for n in 1..=sites_of(&rl0).len() {
+                        let mut r2 = b.clone();
+                        r2[PANIC_SLOT] = n as i64;
+                        allrows.push(r2);
+                    }
+                }
                 allrows.push(r);
-            }
-            if sweep {
-                // one row per distinct event site of the reference's fault-free trace: that event panics
-                let mut b: Vec<i64> = row.to_vec();
-                if b.len() <= PANIC_SLOT {
-                    b.resize(PANIC_SLOT + 1, 0);
-                }
-                b[PANIC_SLOT] = 0;
-                set_inp(&b);
-                let (_, rl0, _) = run1(p.r);
-                for n in 1..=sites_of(&rl0).len() {
-                    let mut r = b.clone();
-                    r[PANIC_SLOT] = n as i64;
-                    allrows.push(r);
-                }
             }
         }
         for row in &allrows {
